@@ -794,7 +794,7 @@ package channel
 
 //@ func (Balances).Sum
 //@   requires nonNilBalances(b)
-//@   ensures len(result) == len(b) && fresh(arr(result)) && off(result) == 0 && freshBals(result)
+//@   ensures len(result) == len(b) && fresh(arr(result)) && off(result) == 0 && freshBals(result) && distinctBals(result)
 //@   ensures forall i int :: 0 <= i && i < len(b) ==> val(result[i]) == bsum(b[i])
 //@   trustedensures forall i int :: 0 <= i && i < len(b) ==> val(result[i]) == balSum(b[i])
 //@   loop 1
@@ -814,16 +814,24 @@ package channel
 //@     invariant forall k int :: 0 <= k && k < i ==> val(totals[k]) == bsum(b[k])
 //@     invariant forall k int :: i < k && k < len(totals) ==> val(totals[k]) == 0
 
+// asum(a, i): the total of asset i over all participants and all locked sub-allocations.
+//@ pred lsumN(l []SubAlloc, i int, n int) = sumof x int :: n :: val(l[x].Bals[i])
+//@ pred asum(a Allocation, i int) = bsum(a.Balances[i]) + lsumN(a.Locked, i, len(a.Locked))
+
 //@ func (Allocation).Sum
-//@   requires nonNilBalances(a.Balances) && nonNilLocked(a.Locked) && forall l int :: 0 <= l && l < len(a.Locked) ==> len(a.Locked[l].Bals) <= len(a.Balances)
+//@   requires nonNilBalances(a.Balances) && nonNilLocked(a.Locked) && forall l int :: 0 <= l && l < len(a.Locked) ==> len(a.Locked[l].Bals) == len(a.Balances)
 //@   ensures len(result) == len(a.Balances) && fresh(arr(result)) && off(result) == 0 && freshBals(result)
+//@   ensures forall i int :: 0 <= i && i < len(a.Balances) ==> val(result[i]) == asum(a, i)
 //@   trustedensures forall i int :: 0 <= i && i < len(a.Balances) ==> val(result[i]) == allocSum(a, i)
 //@   loop 1
 //@     modifies fresh
-//@     invariant len(totals) == len(a.Balances) && fresh(arr(totals)) && off(totals) == 0 && freshBals(totals)
+//@     invariant len(totals) == len(a.Balances) && fresh(arr(totals)) && off(totals) == 0 && freshBals(totals) && distinctBals(totals)
+//@     invariant forall k int :: 0 <= k && k < len(totals) ==> val(totals[k]) == bsum(a.Balances[k]) + lsumN(a.Locked, k, $i)
 //@   loop 2
 //@     modifies fresh
-//@     invariant len(totals) == len(a.Balances) && fresh(arr(totals)) && off(totals) == 0 && freshBals(totals)
+//@     invariant len(totals) == len(a.Balances) && fresh(arr(totals)) && off(totals) == 0 && freshBals(totals) && distinctBals(totals)
+//@     invariant forall k int :: 0 <= k && k < $i ==> val(totals[k]) == bsum(a.Balances[k]) + lsumN(a.Locked, k, $i1 + 1)
+//@     invariant forall k int :: $i <= k && k < len(totals) ==> val(totals[k]) == bsum(a.Balances[k]) + lsumN(a.Locked, k, $i1)
 
 // Element-wise sum and difference of two balance matrices of equal dimensions (operate panics otherwise).
 //@ pred sameDims(a Balances, b Balances) = len(a) == len(b) && forall i int :: 0 <= i && i < len(a) ==> len(a[i]) == len(b[i])
